@@ -88,8 +88,9 @@ def derivative(expr: e.Expr, t_string: str):
             obj = obj.tensors
             assert len(obj) == 1
             obj = obj[0]
+            # (only the base: the exponent has been taken care of by diff)
             symmetrized_deriv_contrib = (
-                symmetrized_deriv_contrib.subs(x, obj)
+                symmetrized_deriv_contrib.subs(x, obj.base)
             )
             # - sort the derivative according to the space of the minimal
             #   tensor indices
